@@ -35,6 +35,7 @@ def run(ctx):
     ctx.rule("R10.c", "in reactive.py every write of self._current_ after a suspension point is guarded by `self._current_task is task`, and the task is registered before the first suspension", floor=2)
     ctx.rule("R10.m", "setter model: Parameter.__set__ interpreted abstractly on every combination (576) of route x constant/readonly x validation outcome x identity x reference mode x watchers x batching: "
                       "a plain value overriding an existing link ends it (relink(None) is what cancels the pending task), except for the sync's own write", floor=1)
+    ctx.rule("R10.k", "constructor model: Parameters._setup_params (with _instantiate_param) interpreted abstractly on 288 combinations of keywords x reference modes (plain value / reference with a value / reference without a value yet / asynchronous reference) x an unknown keyword: own copy of every instantiate=True default and pinned constants before any keyword is applied (and still there when a keyword assigns nothing), exactly the specified assignments, every reference and only references recorded", floor=1)
     ctx.rule("R10.j", "the scope that marks the sync's own writes replaces the syncing set by a fresh one and restores the saved one: it never mutates in place the set object it saved "
                       "(otherwise the marker outlives the scope and every later plain assignment looks like a sync write that must not cancel)", floor=1)
     ctx.not_decided += ["the asyncio scheduler's cancellation semantics (trusted: Task.cancel() raises at the await, so no later write happens)",
@@ -249,3 +250,5 @@ def run(ctx):
     # model-level rule, run last
     from checks import setter_model
     setter_model.report(ctx, "C10", "R10.m")
+    from checks import ctor_model
+    ctor_model.report(ctx, "C10", "R10.k")
